@@ -143,6 +143,8 @@ class Repeat(addons.AddonMainTask, block.SBlock):
         # send the original event synchronously in order
         # not to conceal a possible forbidden loop
         data['orig_source'] = data.get('source')
+        # the sender may be a Repeat block too; its repeat count is replaced by our own
+        data.pop('repeat', None)
         self.set_output(0)
         self._repeated_event.send(self, **data, repeat=0)
         self._queue.put_nowait(data)
